@@ -29,14 +29,17 @@ class StandardMetrics:
         if not isinstance(received, torch.Tensor):
             received = torch.tensor(received)
 
-        # Reshape into blocks
-        n_blocks = len(transmitted) // block_size
-        transmitted_blocks = transmitted[: n_blocks * block_size].reshape(-1, block_size)
-        received_blocks = received[: n_blocks * block_size].reshape(-1, block_size)
+        # Reshape into blocks (blocks never straddle items of the first dimension)
+        elements_per_item = transmitted[0].numel() if transmitted.dim() > 1 else transmitted.numel()
+        if block_size <= 0 or elements_per_item % block_size != 0:
+            raise ValueError(f"Number of elements per item ({elements_per_item}) must be divisible by block_size ({block_size})")
+        transmitted_blocks = transmitted.reshape(-1, block_size)
+        received_blocks = received.reshape(-1, block_size)
+        n_blocks = transmitted_blocks.shape[0]
 
         # Count block errors
         block_errors = torch.sum(torch.any(transmitted_blocks != received_blocks, dim=1))
-        return float(block_errors / n_blocks)
+        return float(block_errors / n_blocks) if n_blocks > 0 else 0.0
 
     @staticmethod
     def signal_to_noise_ratio(signal: Union[torch.Tensor, torch.Tensor], noise: Union[torch.Tensor, torch.Tensor]) -> float:
